@@ -1073,3 +1073,65 @@ Definition spec_obs (w : world) (o : op) (model : obs) : obs :=
 Definition free_count (w : world) (p : nat) : nat := length (p_free (getp w p)).
 Definition saturated (w : world) (p : nat) : bool :=
   pub_live w p && Nat.eqb (free_count w p) 0.
+
+(* classification of a Panic outcome (driver only): the same world with a (much) larger
+   to_be_removed_connections capacity for every subscriber.  A panic that disappears there is the
+   fatal_panic "Expired connection buffer exceeded" of prepare_connection_removal. *)
+Definition bump_tbrcap (w : world) : world :=
+  w_set_subs w (map (fun x =>
+    {| s_active := s_active x; s_alive := s_alive x; s_slot := s_slot x; s_buf := s_buf x; s_hreq := s_hreq x;
+       s_tab := s_tab x; s_store := s_store x ++ repeat None 1000; s_freekeys := s_freekeys x ++ seq (length (s_store x)) 1000;
+       s_tbr := s_tbr x; s_tbrcap := s_tbrcap x + 1000; s_snap := s_snap x; s_recv := s_recv x |}) (w_subs w)).
+Definition panics (w : world) (o : op) : bool := match step w o with Panic => true | Val _ => false end.
+
+(* ---------------------------------------------------------------------------------------- *)
+(* the C02 / C08 invariant as an executable check (evaluated by the driver after every       *)
+(* operation of every history; stated as a Prop and proved in proofs/Port*.v)                *)
+(* ---------------------------------------------------------------------------------------- *)
+Definition count_off (o : off) (l : list off) : nat := count_occ Nat.eq_dec l o.
+Fixpoint nodup_b (l : list off) : bool :=
+  match l with [] => true | h :: t => negb (mem_off h t) && nodup_b t end.
+Definition same_multiset (a b : list off) : bool :=
+  forallb (fun o => Nat.eqb (count_off o a) (count_off o b)) (a ++ b).
+(* ghost holders of the chunks of publisher p *)
+Definition loans_of (w : world) (p : nat) : list off :=
+  map l_off (filter (fun l => Nat.eqb (l_pub l) p) (w_loans w)).                          (* Loan *)
+Definition hist_of (w : world) (p : nat) : list off := map he_off (p_hist (getp w p)).    (* History *)
+Definition borrowed (w : world) (p s : nat) : list off :=                                  (* Borrowed c sample *)
+  map x_off (filter (fun x => Nat.eqb (x_origin x) p && Nat.eqb (x_sub x) s) (w_samples w)).
+Definition tab_conns (w : world) (p : nat) : list (nat * conn) :=
+  flat_map (fun e => match e with
+                     | Some s => match getc w p s with Some c => [(s, c)] | None => [] end
+                     | None => [] end) (p_tab (getp w p)).
+Definition holders (w : world) (p : nat) (o : off) : nat :=
+  count_off o (loans_of w p) + count_off o (hist_of w p)
+  + list_sum (map (fun sc => count_off o (c_used (snd sc))) (tab_conns w p)).
+
+Definition conn_inv_b (w : world) (p s : nat) (c : conn) : bool :=
+  let n := p_n (getp w p) in
+  c_snd c && nodup_b (c_used c) && forallb (fun o => Nat.ltb o n) (c_used c)
+  && same_multiset (c_used c) (map q_off (c_sub c) ++ borrowed w p s ++ c_comp c)      (* used = sub + borrowed + comp *)
+  && Nat.leb (length (c_sub c)) (c_B c)
+  && (negb (c_rcv c) || (Nat.eqb (c_borrow c) (length (borrowed w p s)) && Nat.leb (c_borrow c) (c_M c)))
+  && Nat.leb (length (c_sub c) + length (borrowed w p s) + length (c_comp c)) (c_B c + c_M c)
+  && Nat.leb (c_B c) (cf_B (w_cfg w)) && Nat.eqb (c_M c) (cf_M (w_cfg w)).
+
+Definition pub_inv_b (w : world) (p : nat) : bool :=
+  let x := getp w p in
+  let n := p_n x in
+  Nat.eqb n (required_samples (w_cfg w) (p_L x))
+  && Nat.eqb (length (p_refcnt x)) n && Nat.eqb (length (p_mem x)) n && Nat.eqb (length (p_tab x)) (cf_S (w_cfg w))
+  && nodup_b (p_free x) && forallb (fun o => Nat.ltb o n) (p_free x)
+  && forallb (fun o => N.eqb (nth o (p_refcnt x) 0%N) (N.of_nat (holders w p o))      (* refcnt o = [Loan] + [History] + sum_c [o in used c] *)
+                       && Bool.eqb (mem_off o (p_free x)) (N.eqb (nth o (p_refcnt x) 0%N) 0))  (* free <-> refcnt 0 *)
+             (seq 0 n)
+  && nodup_b (loans_of w p) && Nat.eqb (p_loans x) (length (loans_of w p)) && Nat.leb (p_loans x) (p_L x)
+  && Nat.leb (length (p_hist x)) (cf_H (w_cfg w))
+  && nodup_b (flat_map (fun e => match e with Some s => [s] | None => [] end) (p_tab x))
+  && forallb (fun e => match e with
+                       | None => true
+                       | Some s => match getc w p s with None => false | Some c => conn_inv_b w p s c end
+                       end) (p_tab x).
+
+Definition inv_check (w : world) : bool :=
+  forallb (fun p => negb (p_active (getp w p)) || pub_inv_b w p) (seq 0 (length (w_pubs w))).
